@@ -178,3 +178,88 @@ pub fn write_varied<W: std::io::Write + ?Sized>(w: &mut W, chunk: &[u8], how: us
         _ => w.write_all(chunk),
     }
 }
+
+/// Assemble a configuration from its parts through the builders' setters.  The builders offer a
+/// singular and a plural setter for every list (appender/appenders, logger/loggers, filter/filters);
+/// which ones are used, and whether `additive` is set before or after the attachments, changes with
+/// every call (`how`): the configuration is the same - same items, same order.
+pub fn assemble(
+    apps: Vec<log4rs::config::Appender>,
+    loggers: Vec<(String, LevelFilter, bool, Vec<String>)>,
+    root_level: LevelFilter,
+    root_refs: Vec<String>,
+) -> (log4rs::config::runtime::ConfigBuilder, log4rs::config::Root) {
+    use log4rs::config::{Config, Logger, Root};
+    static TURN: std::sync::atomic::AtomicUsize = std::sync::atomic::AtomicUsize::new(0);
+    let how = TURN.fetch_add(1, std::sync::atomic::Ordering::SeqCst) % 3;
+    let mut b = Config::builder();
+    let mut root = Root::builder();
+    match how {
+        0 => {
+            for a in apps {
+                b = b.appender(a);
+            }
+            for r in root_refs {
+                root = root.appender(r);
+            }
+        }
+        1 => {
+            b = b.appenders(apps);
+            root = root.appenders(root_refs);
+        }
+        _ => {
+            let mut it = apps.into_iter();
+            if let Some(first) = it.next() {
+                b = b.appender(first);
+            }
+            b = b.appenders(it);
+            let mut it = root_refs.into_iter();
+            if let Some(first) = it.next() {
+                root = root.appender(first);
+            }
+            root = root.appenders(it);
+        }
+    }
+    let mut built = vec![];
+    for (k, (name, level, additive, refs)) in loggers.into_iter().enumerate() {
+        let mut lb = Logger::builder();
+        if (how + k) % 2 == 0 {
+            lb = lb.additive(additive);
+        }
+        match (how + k) % 3 {
+            0 => {
+                for r in refs {
+                    lb = lb.appender(r);
+                }
+            }
+            1 => lb = lb.appenders(refs),
+            _ => {
+                let mut it = refs.into_iter();
+                if let Some(first) = it.next() {
+                    lb = lb.appender(first);
+                }
+                lb = lb.appenders(it);
+            }
+        }
+        if (how + k) % 2 == 1 {
+            lb = lb.additive(additive);
+        }
+        built.push(lb.build(name, level));
+    }
+    match how {
+        0 => {
+            for l in built {
+                b = b.logger(l);
+            }
+        }
+        1 => b = b.loggers(built),
+        _ => {
+            let mut it = built.into_iter();
+            if let Some(first) = it.next() {
+                b = b.logger(first);
+            }
+            b = b.loggers(it);
+        }
+    }
+    (b, root.build(root_level))
+}
